@@ -39,13 +39,13 @@ TEXT = {
         "level": "Exploration by runtime monitoring: each top-down compilation (both node stores) is compared with brute-force evaluation of the clause list, the false-constant/UNSAT correspondence and per-path single decision are checked structurally, and condition() on the result and on its negation is compared with the cofactor for every literal; all decision orders are enumerated for CNFs over <= 4 variables.",
         "design_ref": "DESIGN.md section 4, C06",
         "note": NOTE,
-        "technique": "runtime monitor: differential check against brute-force CNF semantics + structural path invariant + conditioning oracle, workload biased to component-cache hits and late UNSAT; wide regime and several CNFs per builder with drift re-walks; Miri leg on both node stores; recorded residual-hash collision witness",
+        "technique": "runtime monitor: differential check against brute-force CNF semantics + structural path invariant + conditioning oracle, workload biased to component-cache hits and late UNSAT; wide regime and several CNFs per builder with drift re-walks; Miri leg on both node stores; recorded residual-hash collision witnesses (F12, F17); fault injection on hash quality (hook H5: residual hash truncated to 0-8 bits, component-cache conflicts counted)",
     },
     "C09": {
-        "level": "Exploration by runtime monitoring of decide/pop histories: an online checker compares every observable solver state with brute-force entailment over all models, an independent naive propagator, a recorded-state stack (pop restore) and a per-solver hash->residual map. Right level because watched-literal bugs depend on the history of falsifications across backtracking, which only long random walks reach.",
+        "level": "Exploration by runtime monitoring of decide/pop histories: an online checker compares every observable solver state with brute-force entailment over all models, an independent naive propagator, a recorded-state stack (pop restore), a per-solver hash->residual map and a two-way map between cur_residual() and the residual formula. Right level because watched-literal bugs depend on the history of falsifications across backtracking, which only long random walks reach.",
         "design_ref": "DESIGN.md section 4, C09",
         "note": NOTE,
-        "technique": "runtime monitor: online trace checker over decide/pop histories against brute-force entailment, reference propagator and recorded pre-decision states (read-only model hook); wide regime (CNF variables spread over up to 200 labels); recorded residual-hash collision witnesses (F12)",
+        "technique": "runtime monitor: online trace checker over decide/pop histories against brute-force entailment, reference propagator and recorded pre-decision states (read-only model hook); wide regime (CNF variables spread over up to 200 labels); recorded residual-hash collision witnesses (F12, F17); bijection monitor between cur_residual() and the position-indexed residual formula",
     },
     "C07": {
         "level": "Exploration by runtime monitoring: every count returned by the library on generated BDDs / SDDs / decision-DNNFs in all nine shipped semiring instances is compared for exact equality with the defining sum over models computed from the truth table in exact arithmetic; BDDs also under arbitrary weights against the unsmoothed count; evaluate() against the truth table on every assignment.",
